@@ -1,5 +1,8 @@
 """C19 -- ONNX Runtime fusions preserve numerical results (DESIGN.md section 5, C19).
 
+Attention family (mha / sdpa_via_mha / attention / gqa), instance->group normalisation and cos/sin cache: models in
+coq/Fusion/{Attn,GroupNorm,CosSin}.v, theorems in Props/C19_attention.v, generators + correspondence in c19_attn2.py.
+
 Per fusion family:
   * Coq: the matched expression is algebraically the documented function of the fused operator, over every
     field / all vector lengths (coq/Fusion/*.v, Props/C19.v), and the side conditions are modelled executably;
@@ -18,6 +21,7 @@ from fractions import Fraction
 import numpy as np
 
 from harness import c19_attn as A
+from harness import c19_attn2 as A2
 from harness import c19_misc as M
 from harness import c19_norm as N
 from harness import common
@@ -37,8 +41,8 @@ class St:
         self.np_rng = np.random.default_rng(ctx.rng.randrange(2 ** 31))
         self.n_inputs = 3
         self.stats = {}          # family -> dict(instances, fired, not_fired, invalid, known)
-        self.cases = {"norm": [], "mm": [], "rot": [], "sdpa": [], "bgelu": []}
-        self.meta = {"norm": [], "mm": [], "rot": [], "sdpa": [], "bgelu": []}
+        self.cases = {"norm": [], "mm": [], "rot": [], "sdpa": [], "bgelu": [], "attn": [], "gn": [], "cs": []}
+        self.meta = {k: [] for k in self.cases}
         self.structural_only = set()
 
     def stat(self, fam, k, n=1):
@@ -1130,8 +1134,32 @@ def fam_group_norm(st):
     st.structural_only.add("com.microsoft::GroupNorm (no CPU kernel: evaluated with a NumPy implementation of the documented operator)")
 
 
+def fam_mha(st):
+    A2.fam_mha(st, probe)
+
+
+def fam_sdpa_lowering(st):
+    A2.fam_sdpa_lowering(st, probe)
+
+
+def fam_attention_rule(st):
+    A2.fam_attention_rule(st, probe)
+
+
+def fam_gqa_rule(st):
+    A2.fam_gqa_rule(st, probe)
+
+
+def fam_group_norm2(st):
+    A2.fam_group_norm2(st, probe)
+
+
+def fam_cos_sin(st):
+    A2.fam_cos_sin(st, probe)
+
+
 FAMILIES = [fam_rms, fam_skip, fam_layer_norm, fam_gelu, fam_bias_gelu, fam_softmax, fam_matmul, fam_rotary, fam_sdpa,
-            fam_attention, fam_gqa, fam_repo_models, fam_group_norm]
+            fam_attention, fam_gqa, fam_repo_models, fam_mha, fam_sdpa_lowering, fam_attention_rule, fam_gqa_rule, fam_group_norm2, fam_cos_sin]
 
 
 def coq_correspondence(st):
@@ -1140,6 +1168,9 @@ def coq_correspondence(st):
                ("mm", "OV.Fusion.MatMul", "list mm_case", "mm_disagreeing 0 cases"),
                ("rot", "OV.Fusion.Rotary", "list rot_case", "rot_disagreeing 0 cases"),
                ("sdpa", "OV.Fusion.Sdpa", "list sdpa_case", "sdpa_disagreeing 0 cases"),
+               ("attn", "OV.Fusion.Attn", "list attn_case", "attn_disagreeing 0 cases"),
+               ("gn", "OV.Fusion.GroupNorm", "list gn_case", "gn_disagreeing 0 cases"),
+               ("cs", "OV.Fusion.CosSin", "list cs_case", "cs_disagreeing 0 cases"),
                ("bgelu", "OV.Fusion.Gelu", "list bias_gelu_case", "(fix d (i : nat) (cs : list bias_gelu_case) : list nat := match cs with [] => [] | c :: t => (if bias_gelu_agrees c then [] else [i]) ++ d (S i) t end) 0%nat cases"))
     for name, req, ty, expr in streams:
         cases = st.cases[name]
@@ -1180,8 +1211,12 @@ def run(ctx):
               executable_fused_ops=["SimplifiedLayerNormalization", "RMSNormalization", "LayerNormalization", "SkipSimplifiedLayerNormalization",
                                     "SkipLayerNormalization", "Gelu", "FastGelu", "BiasGelu", "FusedMatMul", "RotaryEmbedding (com.microsoft and opset 23)",
                                     "MultiHeadAttention", "Attention", "GroupQueryAttention (batch 1, head_size % 16 == 0)", "Softmax(float16)"],
-              not_modelled=["mha/gqa/attention head splitting and mask broadcasting (direct oracle only)", "cos_sin_cache (direct oracle through the repo models only)",
-                            "gqa (direct oracle on the repo's Phi-style block at several sizes, batch 1); gqa_packed_qkv not exercised", "instance->group norm algebra (NumPy reference only)",
+              not_modelled=["rounding / kernel evaluation order of the fused attention kernels (direct oracle)",
+                            "rotary embedding INSIDE the MHA/GQA rules (its own theorems cover the rotation; the rules with is_rotary are exercised through the gqa block and the repo models only)",
+                            "attention.py packed-MatMul+Slice variant and past: check modelled (att_check_rewrite) but no generated instance; gqa_packed_qkv, mha cross-attention rules, group_normalization_merge_silu not exercised",
+                            "GQA without past / batch > 1 (the CPU kernel's limit); sliding window",
+                            "NCHW<->NHWC Transposes around GroupNorm (layout only: NumPy reference of the documented operator)",
+                            "cos_sin_cache const_freqs variants (freqs folded to a constant) and a configured max_pos_id",
                             "softmax upcast removal (a precision claim)", "matcher constant tolerance"],
               generator="per family: random shapes (rank 1-5, dims 1-17 incl. 1), dtypes f32/f16/f64, operand orders, optional inputs, epsilon/axis/"
                         "attribute values, near misses by one targeted mutation; known-finding classes probed on every run")
